@@ -677,6 +677,31 @@ func (c *Ctx) ruleUTF16() {
 					fromRead = true
 				}
 			}
+			// a by-value copy of the read buffer (an array handed back by the helper
+			// that did the read): the same bytes
+			cur := dval{ir.RootOf(src.v), src.fr}
+			for hops := 0; hops < 3 && !fromRead; hops++ {
+				a, isA := cur.v.(*ssa.Alloc)
+				if !isA {
+					break
+				}
+				if _, isArr := a.Type().Underlying().(*types.Pointer).Elem().Underlying().(*types.Array); !isArr {
+					break
+				}
+				var from dval
+				cnt := 0
+				dv.eachStoreTo(a, cur.fr, func(st *ssa.Store, f *frame) { from, cnt = dv.resolve(st.Val, f), cnt+1 })
+				ld, isLd := from.v.(*ssa.UnOp)
+				if cnt != 1 || !isLd || ld.Op != token.MUL {
+					break
+				}
+				cur = dval{ir.RootOf(ld.X), from.fr}
+				for _, b := range readBufs {
+					if cur.same(b) || cur.v == ir.RootOf(b.v) && cur.fr == b.fr {
+						fromRead = true
+					}
+				}
+			}
 			if !fromRead {
 				ok, det = false, "append at "+c.IPos(call)+" adds bytes that were not read from the input (a synthesised terminator makes the decoder's terminator check vacuous)"
 			}
